@@ -71,8 +71,22 @@ class C02(Prop):
 
     def corpus(self):
         f9 = [{'jsonrpc': '2.0', 'method': 'n'}, {'jsonrpc': '2.0', 'method': 5, 'id': 1}]
-        return [{'proto': 'v2', 'ops': [['receive', list(json.dumps(f9).encode())]],
-                 'meta': [{'kind': 'batch', 'nreq': 0, 'nbad': 1, 'nnotif': 1, 'ids': []}]}]
+        out = [{'proto': 'v2', 'ops': [['receive', list(json.dumps(f9).encode())]],
+                'meta': [{'kind': 'batch', 'nreq': 0, 'nbad': 1, 'nnotif': 1, 'ids': []}]}]
+        # batch responses whose size is within a few bytes of max_response_size, every offset -8..+8 (the accounting of
+        # separators and brackets decides which entry is replaced)
+        for pname, k, rs in (('v2', 3, 10), ('loose', 2, 1), ('v2', 1, 25)):
+            ms = [{'jsonrpc': '2.0', 'method': 'm', 'id': i + 1} for i in range(k)]
+            entry = [len(json.dumps({'jsonrpc': '2.0', 'result': 'r' * rs, 'id': i + 1}, separators=(',', ':'))) for i in range(k)]
+            total = sum(entry) + 2 * (k - 1) + 2
+            for off in range(-8, 9):
+                ops = [['set_max', total + off], ['receive', list(json.dumps(ms).encode())]]
+                meta = [None, {'kind': 'batch', 'nreq': k, 'nbad': 0, 'nnotif': 0, 'ids': [m['id'] for m in ms], 'b': 0}]
+                for i in range(k):
+                    ops.append(['send_result', i, ['res', 'r' * rs]])
+                    meta.append({'kind': 'reply', 'id': i + 1, 'b': 0, 'res': ['res', 'r' * rs]})
+                out.append({'proto': pname, 'ops': ops, 'meta': meta})
+        return out
 
     def generate(self, rng, n, tier):
         import itertools
